@@ -63,8 +63,10 @@ def check_generator_purity(ctx: Ctx, rule: str, only: set | None = None, classes
         for mname, f in cgc.methods.items():
             if mname == "__init__" or (only is not None and mname not in only):
                 continue
-            decs = [d for d in f.decorators() if "cache" in d]
-            ctx.check(not decs, rule, f.key("no-cache-decorator"), "not memoised", f"CodeGenerator.{mname} is memoised ({decs}); results computed for one remove_unused setting could be reused for another", f.where(), )
+            # (a cached_property takes no arguments: its key - the object - is complete as long as the object is not modified,
+            # which the state-write obligation below decides)
+            decs = [d for d in f.decorators() if "cache" in d and d.split("(")[0].split(".")[-1] != "cached_property"]
+            ctx.check(not decs, rule, f.key("no-cache-decorator"), "not memoised", f"{cname}.{mname} is memoised ({decs}); results computed for one remove_unused setting could be reused for another", f.where(), )
             writes = []
             for n in walk_no_nested(f.node):
                 tg = []
@@ -81,7 +83,7 @@ def check_generator_purity(ctx: Ctx, rule: str, only: set | None = None, classes
                         root = root.value
                 if isinstance(n, ast.Call) and isinstance(n.func, ast.Attribute) and n.func.attr in ("setdefault", "update", "append", "add", "__setitem__") and (dotted(n.func.value) or "").startswith("self."):
                     writes.append(norm(n)[:60])
-            ctx.check(not writes, rule, f.key("no-state-writes"), "generator method keeps no state between calls", f"CodeGenerator.{mname} writes generator state ({writes}); the text generated by one method can then depend on which methods ran before", f.where())
+            ctx.check(not writes, rule, f.key("no-state-writes"), "generator method keeps no state between calls", f"{cname}.{mname} writes generator state ({writes}); the text generated by one method can then depend on which methods ran before", f.where())
 
 
 def liveness_rules(ctx: Ctx, R: dict, declare: bool = True):
